@@ -5,3 +5,4 @@ import CvDriver.C11
 import CvDriver.Mod
 import CvDriver.C20
 import CvDriver.C13
+import CvDriver.C19
